@@ -2,7 +2,10 @@ from p_pool import Pool, make
 import subprocess
 import core
 
-PLUGIN = make("C02")
+from p_conn import with_conn
+
+# pool histories (M-POOL) + the real HttpConnection against the PoolableConnection contract (M-CONN)
+PLUGIN = with_conn(make("C02"))
 
 
 def extra(tier, seed):
